@@ -39,6 +39,9 @@ impl Addr {
     #[verifier::external_body]
     pub fn to_string(&self) -> (r: String) ensures r@ == self.s@ { self.s.clone() }
 }
+// ASSUMPTION on inputs: an address is at most 0xFF00 bytes long (bech32 addresses are < 100 bytes; longer namespaces panic by design)
+pub axiom fn axiom_addr_len(a: Addr)
+    ensures a.bytes().len() <= 0xFF00;
 // two addresses with the same text are the same address, and have the same bytes
 pub axiom fn axiom_addr_ext(a: Addr, b: Addr)
     ensures a.s@ == b.s@ ==> a == b;
@@ -57,6 +60,10 @@ impl Binary {
     pub fn to_vec(&self) -> (r: Vec<u8>) ensures r@ == self.b@ { self.b.clone() }
     #[verifier::external_body]
     pub fn as_slice(&self) -> (r: &[u8]) ensures r@ == self.b@ { self.b.as_slice() }
+    #[verifier::external_body]
+    pub fn is_empty(&self) -> (r: bool) ensures r == (self.b@.len() == 0) { self.b.is_empty() }
+    #[verifier::external_body]
+    pub fn len(&self) -> (r: usize) ensures r == self.b@.len() { self.b.len() }
     #[verifier::external_body]
     pub fn from_vec(v: Vec<u8>) -> (r: Binary) ensures r.b@ == v@ { Binary { b: v } }
     #[verifier::external_body]
